@@ -217,3 +217,58 @@ Example c12_repeated_listener :
   find_prio (gbuild l) 7 = Some 5%Z /\ find_prio (gbuild l) 3 = Some (-1)%Z /\ find_prio (gbuild l) 9 = None /\
   sort_listeners (gbuild l) = [1; 7; 7; 7; 3]%N.
 Proof. vm_compute. repeat split; reflexivity. Qed.
+
+(* ================================================================== *)
+(* The extended alphabet (xstep / run_C12X of Model/Dispatcher.v - what the harness drives): the same
+   callable registered again, registration without a priority, a dispatch whose event is already
+   stopped, a listener that registers a listener while it is being called.  The dispatcher record and
+   its functions are the ones above; registrations are numbered, a table says which callable each is. *)
+From Clikit Require Import Proofs.DispatcherExtLemmas.
+
+(* For EVERY sequence of extended ops, every dispatch (stopped beforehand or not), get_listeners(event)
+   and has_listeners answer of the model is the answer of a specification that keeps only the log of
+   registrations (one entry per add_listener call, whoever makes it) and the behaviour tables. *)
+Theorem xrun_refines : forall ops, xouts_agree ops (xrun xinit ops) (xsrun xsinit ops).
+Proof. exact xrun_refines_lemma. Qed.
+Print Assumptions xrun_refines.
+
+(* In that specification a dispatch calls - one call per registration - the registrations of the event
+   that are in the log WHEN THE DISPATCH STARTS, highest priority first, registration order within a
+   priority, up to the first callable that stops; what the called listeners register meanwhile is not
+   among them ... *)
+Theorem dispatch_calls_the_registrations_so_far : forall q ev,
+  snd (xsstep q (XOp (Dispatch ev))) =
+  OCalled (map (callable_of (q_call q)) (run_until_stop (spec_stops (q_regs q)) (spec_order (q_regs q) ev))).
+Proof. reflexivity. Qed.
+Print Assumptions dispatch_calls_the_registrations_so_far.
+(* ... it is appended to the log (nothing is ever removed), so it takes part from the next dispatch on. *)
+Theorem log_only_grows : forall q o, exists more, q_regs (fst (xsstep q o)) = q_regs q ++ more.
+Proof. exact xsstep_log_grows. Qed.
+Print Assumptions log_only_grows.
+(* An event whose propagation is already stopped reaches nobody, whatever is registered. *)
+Theorem stopped_event_reaches_nobody : forall s ev, snd (xstep s (XDispatchStopped ev)) = OCalled [].
+Proof. exact xdispatch_stopped_lemma. Qed.
+Print Assumptions stopped_event_reaches_nobody.
+
+(* On the base alphabet the extended step function IS the old one: every theorem about [drun] above speaks
+   about the entry point the harness runs. *)
+Theorem xrun_base : forall ops, xrun xinit (map XOp ops) = drun dinit ops.
+Proof. exact xrun_base_lemma. Qed.
+Print Assumptions xrun_base.
+
+(* Non-vacuity.  Callable 0 registers, whenever it is called, a new listener for the same event with the
+   HIGHER priority 5: the first dispatch calls 0 and 1 only; the second calls the late listener 2 first (and 0
+   registers another one, 3, seen by get_listeners afterwards). *)
+Example c12_listener_registered_during_a_dispatch :
+  xrun xinit [XAddRegistrar 0 0 0 5; XOp (Add 0 0 false); XOp (Dispatch 0); XOp (Dispatch 0); XOp (Get 0)]
+  = [ONone; ONone; OCalled [0; 1]; OCalled [2; 0; 1]; OList [2; 3; 0; 1]]%N.
+Proof. vm_compute. reflexivity. Qed.
+(* Callable 0 registered for event 0 under 0 and again under 5, and for event 1; callable 1 without a priority
+   (so: 0) and stopping; callable 2 under -1: event 0 calls 0 (bucket 5), 0 and 1 (bucket 0), then stops;
+   an already stopped event calls nobody; get_listener_priority(e0, callable 0) is the first bucket opened, 0. *)
+Example c12_callable_registered_again :
+  xrun xinit [XOp (Add 0 0 false); XAddAgain 0 5 0; XAddAgain 1 0 0; XAddDefault 0 true; XOp (Add 0 (-1) false);
+              XOp (Dispatch 0); XOp (Dispatch 1); XDispatchStopped 0; XOp (Prio 0 0); XOp (Prio 1 0); XOp (Prio 0 1)]
+  = [ONone; ONone; ONone; ONone; ONone; OCalled [0; 0; 1]; OCalled [0]; OCalled [];
+     OPrio (Some 0%Z); OPrio (Some 0%Z); OPrio (Some 0%Z)]%N.
+Proof. vm_compute. reflexivity. Qed.
